@@ -285,6 +285,11 @@ def c10(ctx):
         _, summ = ctx.tlc_pipe("MC_Composer.tla", "MC_Composer.cfg", ["composer-replay"], overrides=ov,
                                label="exhaustive replay: " + label, timeout=3000)
         first = first or summ["_first_edge"]
+    # the same model with two URIs that differ as strings only (equal after URL normalisation): set union and
+    # difference are over the URIs as given
+    ov, label = composer_runs(ctx)[-1]
+    ctx.tlc_pipe("MC_Composer.tla", "MC_Composer.cfg", ["composer-replay"], overrides=ov, timeout=3000,
+                 env_extra={"VERIF_TWIN_URIS": "1"}, label="exhaustive replay, twin URIs: " + label)
     ctx.negctl_replay(["composer-replay"], first, bump_doc)
     n = 1500 if ctx.tier == "quick" else 40000
     validate_trace(ctx, "composer", ["-n", str(n), "-maxlen", "12"], "ComposerTrace.tla", "ComposerTrace.cfg",
